@@ -240,4 +240,130 @@ fn c07_builtin_float_aggregates__independent_of_the_cut__nat() {
 
 //@fn functions/aggregate/builtin/{stddev,covar,corr,regr_*}.rs states as registered (update / merge / finalize through AggregateLayout)
 
+// C07 (bounded stand-in, native; NOT a proof): integer and boolean aggregates AS REGISTERED -- bit_and, bit_or, min, max,
+// sum, count over BIGINT and INT, bool_and, bool_or over BOOLEAN, first over BIGINT -- equal their definition over the
+// non-NULL values of the group (NULL for no such value; count = their number) and do not depend on how the rows are cut
+// into two partial states that are then combined, INCLUDING an empty or all-NULL state on either side of the merge
+// (a partition that saw no row of the group).  Every sequence of <= 4 values over {NULL, 6, 3, 12, -1, 0} (booleans:
+// {NULL, true, false}), every cut.
+#[derive(Debug, Clone, Copy, PartialEq)]
+enum AggOut {
+    Null,
+    I(i64),
+    B(bool),
+}
+
+fn run_split_opt<T>(set: &'static AggregateFunctionSet, dt: DataType, col: &[Option<T>], cut: usize) -> Result<AggOut>
+where
+    T: Copy,
+    Array: crate::util::iter::TryFromExactSizeIterator<Option<T>, Error = glaredb_error::DbError>,
+{
+    use crate::arrays::scalar::BorrowedScalarValue;
+    let n = col.len();
+    let agg = bind_aggregate_function(set, vec![expr::column((0, 1), dt.clone())])?;
+    let ret = agg.state.return_type.clone();
+    let aggs = [PhysicalAggregateExpression::new(agg, [(1, dt.clone())])];
+    let layout = AggregateLayout::try_new([DataType::int32()], aggs)?;
+    let mut collection = AggregateCollection::new(layout, 16);
+    let mut state = collection.init_append_state();
+    collection.append_groups(&mut state, &[<Array as crate::util::iter::TryFromExactSizeIterator<i32>>::try_from_iter([0_i32, 1])?], 0..2)?;
+    let ptrs = state.row_pointers().to_vec();
+    unsafe {
+        for (lo, hi, row) in [(0usize, cut, 0usize), (cut, n, 1)] {
+            if hi > lo {
+                let arrays = [<Array as crate::util::iter::TryFromExactSizeIterator<Option<T>>>::try_from_iter(col[lo..hi].to_vec())?];
+                let mut p = vec![ptrs[row]; hi - lo];
+                collection.layout.update_states(&mut p, [AggregateUpdateSelector { aggregate_idx: 0, inputs: &arrays }], hi - lo)?;
+            }
+        }
+        let mut src = vec![ptrs[1]];
+        let mut dest = vec![ptrs[0]];
+        collection.layout.combine_states([0], &mut src, &mut dest)?;
+        let mut fin = vec![ptrs[0]];
+        let mut groups = Array::new(&DefaultBufferManager, DataType::int32(), 1)?;
+        let mut results = Array::new(&DefaultBufferManager, ret, 1)?;
+        collection.finalize_groups(&mut fin, &mut [&mut groups], &mut [&mut results])?;
+        Ok(match results.get_value(0)? {
+            BorrowedScalarValue::Null => AggOut::Null,
+            BorrowedScalarValue::Int64(v) => AggOut::I(v),
+            BorrowedScalarValue::Int32(v) => AggOut::I(v as i64),
+            BorrowedScalarValue::Boolean(v) => AggOut::B(v),
+            other => panic!("unexpected result {other:?}"),
+        })
+    }
+}
+
+fn opt_sequences<T: Copy>(dom: &[Option<T>]) -> Vec<Vec<Option<T>>> {
+    let mut out: Vec<Vec<Option<T>>> = vec![vec![]];
+    let mut layer: Vec<Vec<Option<T>>> = vec![vec![]];
+    for _ in 0..4 {
+        let mut next = Vec::new();
+        for s in &layer {
+            for &d in dom {
+                let mut t = s.clone();
+                t.push(d);
+                next.push(t);
+            }
+        }
+        out.extend(next.iter().cloned());
+        layer = next;
+    }
+    out
+}
+
+#[test]
+fn c07_builtin_integer_boolean_aggregates__definition_and_cut_independence__nat() {
+    use crate::functions::aggregate::builtin::bit_and::FUNCTION_SET_BIT_AND;
+    use crate::functions::aggregate::builtin::bit_or::FUNCTION_SET_BIT_OR;
+    use crate::functions::aggregate::builtin::bool_and::FUNCTION_SET_BOOL_AND;
+    use crate::functions::aggregate::builtin::bool_or::FUNCTION_SET_BOOL_OR;
+    use crate::functions::aggregate::builtin::count::FUNCTION_SET_COUNT;
+    use crate::functions::aggregate::builtin::first::FUNCTION_SET_FIRST;
+    use crate::functions::aggregate::builtin::minmax::{FUNCTION_SET_MAX, FUNCTION_SET_MIN};
+    let mut cases = 0usize;
+    let dom64: [Option<i64>; 6] = [None, Some(6), Some(3), Some(12), Some(-1), Some(0)];
+    let ints: [(&str, &'static AggregateFunctionSet); 7] = [
+        ("bit_and", &FUNCTION_SET_BIT_AND), ("bit_or", &FUNCTION_SET_BIT_OR), ("min", &FUNCTION_SET_MIN), ("max", &FUNCTION_SET_MAX),
+        ("sum", &FUNCTION_SET_SUM), ("count", &FUNCTION_SET_COUNT), ("first", &FUNCTION_SET_FIRST),
+    ];
+    for seq in opt_sequences(&dom64) {
+        let vals: Vec<i64> = seq.iter().flatten().copied().collect();
+        for (name, set) in ints {
+            let def = match name {
+                "count" => AggOut::I(vals.len() as i64),
+                _ if vals.is_empty() => AggOut::Null,
+                "bit_and" => AggOut::I(vals.iter().fold(-1i64, |a, b| a & b)),
+                "bit_or" => AggOut::I(vals.iter().fold(0i64, |a, b| a | b)),
+                "min" => AggOut::I(*vals.iter().min().unwrap()),
+                "max" => AggOut::I(*vals.iter().max().unwrap()),
+                "sum" => AggOut::I(vals.iter().sum()),
+                _ => AggOut::I(vals[0]),
+            };
+            for cut in 0..=seq.len() {
+                // BIGINT input
+                let got = run_split_opt::<i64>(set, DataType::int64(), &seq, cut).unwrap_or_else(|e| panic!("{name}(BIGINT {seq:?}) cut after {cut} rows failed: {}", e.to_string().lines().next().unwrap_or("")));
+                assert!(got == def, "{name}(BIGINT) over {seq:?} with the rows cut after {cut} into two partial states gives {got:?}; over the group's rows it is {def:?}");
+                // INT input
+                let seq32: Vec<Option<i32>> = seq.iter().map(|v| v.map(|x| x as i32)).collect();
+                let got = run_split_opt::<i32>(set, DataType::int32(), &seq32, cut).unwrap_or_else(|e| panic!("{name}(INT {seq32:?}) cut after {cut} rows failed: {}", e.to_string().lines().next().unwrap_or("")));
+                assert!(got == def, "{name}(INT) over {seq32:?} with the rows cut after {cut} into two partial states gives {got:?}; over the group's rows it is {def:?}");
+                cases += 2;
+            }
+        }
+    }
+    let domb: [Option<bool>; 3] = [None, Some(true), Some(false)];
+    for seq in opt_sequences(&domb) {
+        let vals: Vec<bool> = seq.iter().flatten().copied().collect();
+        for (name, set) in [("bool_and", &FUNCTION_SET_BOOL_AND), ("bool_or", &FUNCTION_SET_BOOL_OR)] {
+            let def = if vals.is_empty() { AggOut::Null } else if name == "bool_and" { AggOut::B(vals.iter().all(|b| *b)) } else { AggOut::B(vals.iter().any(|b| *b)) };
+            for cut in 0..=seq.len() {
+                let got = run_split_opt::<bool>(set, DataType::boolean(), &seq, cut).unwrap_or_else(|e| panic!("{name}({seq:?}) cut after {cut} rows failed: {}", e.to_string().lines().next().unwrap_or("")));
+                assert!(got == def, "{name} over {seq:?} with the rows cut after {cut} into two partial states gives {got:?}; over the group's rows it is {def:?}");
+                cases += 1;
+            }
+        }
+    }
+    assert!(cases > 20_000);
+}
+
 include!("/verif/build/kani-gen/agg_collection.playback.rs");
